@@ -31,3 +31,22 @@ Print Assumptions C07_ctrl_no_false_alarm.
 
 Theorem C07_ctrl_case_wfb_sound : forall c, CurveLinksCtrl.case_wfb c = true -> CurveLinksCtrl.case_wf c.
 Proof. exact CurveLinksCtrl.case_wfb_wf. Qed.
+
+(* ---- history observer of the `ctrl` driver (Drv/CtrlC07.v): request monotone in the curve value at a fixed
+   raise count under the plain direct algorithm; written value follows for a non-decreasing map on an exact
+   device.  (Named ctrlhist: C07_ctrl_* above are the links of the curvesctrl driver.)  Hypothesis
+   [CtrlLinks.base_wf]: key-sorted non-empty PWM map with outputs 0..255 and 0 <= min <= max <= 255. *)
+From F2G Require Drv.Ctrl Drv.CtrlC07 Proofs.CtrlLinks Proofs.CtrlLinksC07.
+
+Theorem C07_ctrlhist_model_passes : forall c, CtrlLinks.base_wf c ->
+  CtrlC07.holdsb (CtrlLinks.with_obs c (Ctrl.model_obs c)) = true.
+Proof. exact CtrlLinksC07.C07_ctrl_model_passes. Qed.
+Print Assumptions C07_ctrlhist_model_passes.
+
+Theorem C07_ctrlhist_no_false_alarm : forall c, Ctrl.mismatch c = false -> CtrlLinks.base_wf c -> CtrlC07.holdsb c = true.
+Proof. exact CtrlLinksC07.C07_ctrl_no_false_alarm. Qed.
+Print Assumptions C07_ctrlhist_no_false_alarm.
+
+Theorem C07_ctrlhist_base_wfb_sound : forall c, CtrlLinks.base_wfb c = true -> CtrlLinks.base_wf c.
+Proof. exact CtrlLinks.base_wfb_wf. Qed.
+Print Assumptions C07_ctrlhist_base_wfb_sound.
